@@ -126,6 +126,11 @@ def candidates(case):
 
 
 def run(ctx: Ctx, a_ok: bool):
+    from ..internals import observation_diagnostics
+    try:
+        observation_diagnostics(ctx)
+    except Exception as e:  # noqa: BLE001  (diagnostics never fail a check)
+        ctx.extra.setdefault('internal_diagnostics', {})['error'] = repr(e)[:200]
     ctx.cone = ["Observation.confusion_matrix", "Observation.generate_observation", "Observation.obs_list",
                 "Observation.diagnosis_prob"]
     ctx.rule = ("random graphs (1-3 LNLs, binary/trinary) x 0-3 modalities (clinical/pathological; spec/sens from "
